@@ -30,6 +30,7 @@ import (
 type scenario struct {
 	name    string
 	stmt    bool // use statement-level scheduling points
+	strict  bool // bound ALL departures from the default schedule (which thread continues after a block), not only preemptions
 	bound   int  // preemption bound (quick)
 	boundT  int  // preemption bound (thorough)
 	setup   func() interface{}
@@ -39,10 +40,13 @@ type scenario struct {
 	accept func(st interface{}, res []interface{}) string
 }
 
-type chooser struct{ x *xp.X }
+type chooser struct {
+	x      *xp.X
+	strict bool // every departure from the default continuation costs one deviation, not only preemptions
+}
 
 func (c chooser) Choose(n int, preempt bool, label string) int {
-	if preempt {
+	if preempt || c.strict {
 		return c.x.Choose(n, label)
 	}
 	return c.x.Pick(n, label)
@@ -71,8 +75,10 @@ func scenarioUnit(sc scenario) harness.Unit {
 	return harness.Unit{Name: "sched/" + sc.name, Run: func(c *harness.Ctx) {
 		// solo results
 		solo := make([]interface{}, len(sc.threads))
-		for i, th := range sc.threads {
-			solo[i] = th(sc.setup())
+		if sc.accept == nil { // scenarios with their own acceptance test may have threads that cannot run alone
+			for i, th := range sc.threads {
+				solo[i] = th(sc.setup())
+			}
 		}
 		bound := sc.bound
 		if c.Thorough() {
@@ -86,7 +92,7 @@ func scenarioUnit(sc scenario) harness.Unit {
 				th := th
 				bodies = append(bodies, func() interface{} { return th(st) })
 			}
-			s, res := vsched.Run(chooser{x}, sc.stmt, 200000, bodies...)
+			s, res := vsched.Run(chooser{x, sc.strict}, sc.stmt, 200000, bodies...)
 			return s, res, st
 		}
 		g1, r1, _ := run(xp.Run(nil, func(*xp.X) {}))
@@ -258,7 +264,8 @@ func curveInitScenario() scenario {
 }
 
 func scenarios() []scenario {
-	return []scenario{blockScenario("ED"), blockScenario("DD"), blockScenario("EE"), blockScenario("EDE"), blockScenario("DDD"), cbcScenario(), helpersScenario(), sm3Scenario(), berScenario()}
+	sc := []scenario{blockScenario("ED"), blockScenario("DD"), blockScenario("EE"), blockScenario("EDE"), blockScenario("DDD"), cbcScenario(), helpersScenario(), sm3Scenario(), berScenario()}
+	return append(append(sc, connScenarios()...), handshakeScenarios()...)
 }
 
 var _ = sort.Strings
